@@ -899,3 +899,299 @@ Proof.
     exec_head ltac:(ss; reflexivity).
     ss. reflexivity.
 Qed.
+
+(* ---- what the specifications say, in the words of GenNames.v / GenOrder.v ------------------------------------------------------------- *)
+Definition po_real (o : poneof) : bool := negb (po_syn o).
+
+Lemma rw_oneof_syn : forall o, po_syn (gpp_rw_oneof o) = po_syn o.
+Proof. intro o. unfold gpp_rw_oneof. destruct (po_syn o) eqn:E; simpl; rewrite ?E; reflexivity. Qed.
+Lemma rw_oneof_full : forall o, po_full (gpp_rw_oneof o) = po_full o.
+Proof. intro o. unfold gpp_rw_oneof. destruct (po_syn o); reflexivity. Qed.
+Lemma rw_oneof_go_real : forall o, po_syn o = false -> po_go (gpp_rw_oneof o) = rewrite_field (po_go o).
+Proof. intros o E. unfold gpp_rw_oneof. rewrite E. reflexivity. Qed.
+Lemma rw_oneof_synthetic : forall o, po_syn o = true -> gpp_rw_oneof o = o.
+Proof. intros o E. unfold gpp_rw_oneof. rewrite E. reflexivity. Qed.
+
+(* a message that is visited (not yet processed, no map entry): its struct members afterwards are GenNames.struct_members of the
+   members before (fields, then the real oneofs); synthetic oneofs, full names and flags are untouched *)
+Lemma rw_msg_members : forall full fs os ms done, gpp_map_get full done = None ->
+  let m' := fst (gpp_rw_msg (GpMsg full false fs os ms) done) in
+  map pf_go (pm_fields m') ++ map po_go (filter po_real (pm_oneofs m')) = struct_members (map pf_go fs) (map po_go (filter po_real os))
+  /\ map pf_full (pm_fields m') = map pf_full fs
+  /\ map (fun o => (po_syn o, po_full o)) (pm_oneofs m') = map (fun o => (po_syn o, po_full o)) os
+  /\ filter po_syn (pm_oneofs m') = filter po_syn os
+  /\ pm_full m' = full /\ pm_mapentry m' = false /\ length (pm_msgs m') = length ms.
+Proof.
+  intros full fs os ms done Hd. rewrite gpp_rw_msg_eq. rewrite Hd. cbn [fst pm_fields pm_oneofs pm_full pm_mapentry pm_msgs].
+  repeat split.
+  - unfold struct_members. f_equal.
+    + rewrite !map_map. reflexivity.
+    + unfold po_real. induction os as [|o os IH]; [reflexivity|]. simpl. rewrite rw_oneof_syn.
+      destruct (po_syn o) eqn:Es; simpl; [exact IH | rewrite (rw_oneof_go_real o Es); f_equal; exact IH].
+  - rewrite map_map. reflexivity.
+  - rewrite map_map. apply map_ext. intro o. rewrite rw_oneof_syn, rw_oneof_full. reflexivity.
+  - induction os as [|o os IH]; [reflexivity|]. simpl. rewrite rw_oneof_syn.
+    destruct (po_syn o) eqn:Es; [rewrite (rw_oneof_synthetic o Es); f_equal|]; exact IH.
+  - clear. generalize (gpp_map_set full GpvUnit done). induction ms as [|c ms IH]; intro d; [reflexivity|]. simpl. f_equal. apply IH.
+Qed.
+
+(* so no member of a visited message is called like a method of protoreflect.Message (GenNamesProofs.no_member_method_clash) *)
+Lemma rw_msg_no_clash : forall full fs os ms done x, gpp_map_get full done = None ->
+  let m' := fst (gpp_rw_msg (GpMsg full false fs os ms) done) in
+  In x (map pf_go (pm_fields m') ++ map po_go (filter po_real (pm_oneofs m'))) -> ~ In x reserved.
+Proof.
+  intros full fs os ms done x Hd m' Hin. destruct (rw_msg_members full fs os ms done Hd) as [Hm _]. fold m' in Hm. rewrite Hm in Hin.
+  exact (no_member_method_clash _ _ _ Hin).
+Qed.
+
+(* a message already processed, and a map entry, are left alone *)
+Lemma rw_msg_skipped : forall full me fs os ms done, gpp_map_get full done <> None \/ me = true ->
+  gpp_rw_msg (GpMsg full me fs os ms) done = (GpMsg full me fs os ms, done).
+Proof.
+  intros full me fs os ms done H. rewrite gpp_rw_msg_eq. destruct (gpp_map_get full done); [reflexivity|].
+  destruct H as [H| ->]; [congruence | reflexivity].
+Qed.
+
+(* the names of the response files: <prefix>.pulsar.go for exactly the proto3 files with Generate = true, none when no feature generated *)
+Lemma outs_spec_emitted : forall fs files,
+  gpp_emitted (gpp_outs_spec fs files) =
+  if generated fs then map (fun f => fi_prefix f ++ s_pulsar_go) (filter (fun f => fi_generate f && fi_proto3 f) files) else [].
+Proof.
+  intros fs files. unfold gpp_emitted, gpp_outs_spec. induction files as [|f files IH]; [destruct (generated fs); reflexivity|].
+  simpl. destruct (fi_generate f); simpl; [|exact IH].
+  destruct (fi_proto3 f); destruct (generated fs) eqn:Eg; simpl in *; rewrite IH; reflexivity.
+Qed.
+Lemma outs_spec_all_generate : forall fs files, map ou_name (gpp_outs_spec fs files) = map (fun f => fi_prefix f ++ s_pulsar_go) (filter fi_generate files).
+Proof. intros. unfold gpp_outs_spec. rewrite map_map. reflexivity. Qed.
+
+(* ---- (e) main ------------------------------------------------------------------------------------------------------------------------- *)
+Lemma gpp_exec_run : forall perm sorter feat_gen call f plugin body st,
+  gpp_exec perm sorter feat_gen call (GpsRun f plugin body) st =
+  match gpp_get f st with
+  | Some (GpvFlags fl) =>
+    gpp_bind (gpp_run_params fl (gpp_params st) st) (fun _ st1 =>
+      match gpp_scoped (gpp_block perm sorter feat_gen call) [(plugin, GpvPlugin)] body st1 with
+      | GpOk (GsgRet [GpvErr er]) st2 => GpOk GsgNext (gpp_with_err st2 er)
+      | GpOk _ _ => GpStuck
+      | GpPanic => GpPanic | GpExit => GpExit | GpFuel => GpFuel | GpStuck => GpStuck
+      end)
+  | _ => GpStuck
+  end.
+Proof. reflexivity. Qed.
+
+Lemma split_is_split_plus : forall s, gpp_split plus s = split_plus s.
+Proof.
+  unfold gpp_split, split_plus. intro s. generalize (@nil byte). induction s as [|c s IH]; intro cur; simpl; [reflexivity|].
+  destruct (Byte.eqb c plus); [f_equal; apply IH | apply IH].
+Qed.
+
+Definition reserved_map : gpmap := map (fun n => (n, GpvUnit)) reserved.
+Arguments reserved_map : simpl never.
+Lemma reserved_map_keys : forall g, gpp_map_get g reserved_map <> None <-> is_reserved g = true.
+Proof. intro g. rewrite gpp_map_get_keys. reflexivity. Qed.
+
+Lemma gpp_map_set_fresh : forall k v (m : gpmap), ~ In k (map fst m) -> gpp_map_set k v m = m ++ [(k, v)].
+Proof.
+  unfold gpp_map_set. induction m as [|[k' w] m IH]; intro H; [reflexivity|]. fold gpp_map_set in *. simpl in *.
+  destruct (name_eqb k k') eqn:E; [apply name_eqb_eq in E; subst; exfalso; apply H; left; reflexivity|].
+  rewrite IH; [reflexivity | intro Hi; apply H; right; exact Hi].
+Qed.
+
+Definition boot_glob : gpframe :=
+  [("defaultFeatures"%gname, GpvMap (Some 0)); ("SupportedFeatures"%gname, GpvOpaque "uint64"); ("reservedFieldNames"%gname, GpvMap (Some 1))].
+Definition boot_state' (acc rmap : gpmap) (files : list pfile) (params : list (name * name)) : gpstate :=
+  {| gpp_env := [[]]; gpp_glob := boot_glob; gpp_maps := [acc; rmap]; gpp_files := files; gpp_outs := []; gpp_params := params;
+     gpp_err := None |}.
+Definition boot_state (acc : gpmap) := boot_state' acc reserved_map.
+
+Lemma boot_register : forall perm sorter feat_gen fuel files params rmap reg acc, NoDup (map fst (acc ++ reg)) ->
+  gpp_register perm sorter feat_gen canon_genprog (S fuel) reg (boot_state' acc rmap files params) = GpOk tt (boot_state' (acc ++ reg) rmap files params).
+Proof.
+  intros perm sorter feat_gen fuel files params rmap. induction reg as [|[n v] reg IH]; intros acc Hnd.
+  - simpl. rewrite app_nil_r. reflexivity.
+  - assert (Hfresh : ~ In n (map fst acc)).
+    { rewrite map_app in Hnd. simpl in Hnd. apply NoDup_remove_2 in Hnd. intro Hi. apply Hnd. apply in_or_app. left. exact Hi. }
+    cbn [gpp_register]. rewrite gpp_call_S. remember (gpp_call perm sorter feat_gen canon_genprog fuel) as call.
+    unfold boot_state'. ss. rewrite (gpp_map_set_fresh n v acc Hfresh).
+    replace (acc ++ (n, v) :: reg) with ((acc ++ [(n, v)]) ++ reg) by (rewrite <- app_assoc; reflexivity).
+    apply IH. rewrite <- app_assoc. exact Hnd.
+Qed.
+
+Lemma boot_ok : forall perm sorter feat_gen fuel files params reg, NoDup (map fst reg) ->
+  gpp_boot perm sorter feat_gen canon_genprog (S fuel) reg files params = GpOk tt (boot_state reg files params).
+Proof.
+  intros perm sorter feat_gen fuel files params reg Hnd. unfold gpp_boot.
+  assert (Hinit : gpp_init_vars perm sorter feat_gen canon_genprog (S fuel) canon_genprog (gpp_state0 files params) = GpOk tt (boot_state [] files params))
+    by reflexivity.
+  rewrite Hinit. cbn [gpp_bind]. apply (boot_register perm sorter feat_gen fuel files params reserved_map reg []). exact Hnd.
+Qed.
+
+Lemma file_with_msgs_id : forall f, gpp_file_with_msgs f (fi_msgs f) = f.
+Proof. destruct f; reflexivity. Qed.
+Lemma get_msg_top : forall F k f j, nth_error F k = Some f -> gpp_get_msg F k [j] = nth_error (fi_msgs f) j.
+Proof. unfold gpp_get_msg. intros F k f j H. rewrite H. simpl. destruct (nth_error (fi_msgs f) j); reflexivity. Qed.
+Lemma set_msg_top : forall F k f j c c', nth_error F k = Some f -> nth_error (fi_msgs f) j = Some c ->
+  gpp_set_msg F k [j] c' = gpp_list_set k (gpp_file_with_msgs f (gpp_list_set j c' (fi_msgs f))) F.
+Proof. unfold gpp_set_msg. intros F k f j c c' H Hc. rewrite H. simpl. rewrite Hc. reflexivity. Qed.
+Lemma pm_forest_depth_in : forall ms c fuel, pm_forest_depth ms <= fuel -> In c ms -> pm_depth c <= fuel.
+Proof.
+  unfold pm_forest_depth. induction ms as [|a ms IH]; intros c fuel H Hin; [destruct Hin|]. simpl in H.
+  destruct Hin as [->|Hin]; [lia | apply IH; [lia | exact Hin]].
+Qed.
+
+Section MF.
+  Variable perm : gpmap -> gpmap.
+  Variable sorter : (gpvalue -> gpvalue -> bool) -> list gpvalue -> list gpvalue.
+  Variable feat_gen : gpvalue -> bool.
+  Variable fuel : nat.
+  Variables (G : gpframe) (FR : gpframe) (O : list pout) (P : list (name * name)) (E : option (gname * list name)).
+  Variables (q r : nat) (rm : gpmap).
+  Hypothesis HG : gpp_glob_get "reservedFieldNames"%gname G = Some (GpvMap (Some r)).
+  Hypothesis Hrm : forall g, gpp_map_get g rm <> None <-> is_reserved g = true.
+  Hypothesis Hqr : q <> r.
+  Let call := gpp_call perm sorter feat_gen canon_genprog fuel.
+
+  Notation STF F MM :=
+    {| gpp_env := [[("file"%gname, GpvFile _)]; [("processedMessages"%gname, GpvMap (Some q)); ("plugin"%gname, GpvPlugin)]; FR];
+       gpp_glob := G; gpp_maps := MM; gpp_files := F; gpp_outs := O; gpp_params := P; gpp_err := E |}.
+
+  (* the messages of file k *)
+  Lemma main_msgs_loop : forall k f0 F0, nth_error F0 k = Some f0 -> forall rest done_ms MM d j,
+    pm_forest_depth rest <= fuel -> gpp_heap_get MM q = Some d -> gpp_heap_get MM r = Some rm ->
+    gpp_loop (gpp_range_step perm sorter feat_gen call "_" "message" canon_main_messages_body)
+            (gpp_index_items j (map (fun i => GpvMsg k [i]) (seq (length done_ms) (length rest))))
+            {| gpp_env := [[("file"%gname, GpvFile k)]; [("processedMessages"%gname, GpvMap (Some q)); ("plugin"%gname, GpvPlugin)]; FR];
+               gpp_glob := G; gpp_maps := MM; gpp_files := gpp_list_set k (gpp_file_with_msgs f0 (done_ms ++ rest)) F0; gpp_outs := O;
+               gpp_params := P; gpp_err := E |}
+    = GpOk GsgNext
+        {| gpp_env := [[("file"%gname, GpvFile k)]; [("processedMessages"%gname, GpvMap (Some q)); ("plugin"%gname, GpvPlugin)]; FR];
+           gpp_glob := G; gpp_maps := gpp_list_set q (snd (gpp_rw_forest rest d)) MM;
+           gpp_files := gpp_list_set k (gpp_file_with_msgs f0 (done_ms ++ fst (gpp_rw_forest rest d))) F0; gpp_outs := O;
+           gpp_params := P; gpp_err := E |}.
+  Proof.
+    intros k f0 F0 Hk. induction rest as [|c rest IH]; intros done_ms MM d j Hdepth Hq Hr.
+    - cbn [length seq map gpp_index_items gpp_rw_forest fst snd]. unfold gpp_heap_get in Hq. rewrite (@gpp_list_set_id gpmap MM q d Hq). reflexivity.
+    - simpl length. simpl seq. simpl map. simpl gpp_index_items. loop_head.
+      unfold gpp_range_step at 1. unfold gpp_scoped. unfold canon_main_messages_body.
+      set (Fcur := gpp_list_set k (gpp_file_with_msgs f0 (done_ms ++ c :: rest)) F0).
+      assert (Hkc : nth_error Fcur k = Some (gpp_file_with_msgs f0 (done_ms ++ c :: rest))) by (apply (gpp_list_set_nth _ _ _ f0); exact Hk).
+      assert (Hgc : gpp_get_msg Fcur k [length done_ms] = Some c).
+      { rewrite (get_msg_top _ _ _ _ Hkc). simpl. apply nth_error_app_mid. }
+      assert (Hdc : pm_depth c <= fuel) by (apply (pm_forest_depth_in (c :: rest)); [exact Hdepth | left; reflexivity]).
+      assert (Hdr : pm_forest_depth rest <= fuel) by (unfold pm_forest_depth in *; simpl in Hdepth; lia).
+      exec_head ltac:(ss; unfold call; match goal with |- context [gpp_call _ _ _ _ _ _ _ ?st] =>
+                            rewrite (rewrite_prog perm sorter feat_gen fuel st r q k [length done_ms] c d
+                                                  (conj HG (ex_intro _ rm (conj Hr Hrm))) Hqr Hq Hgc Hdc) end; ss; reflexivity).
+      rewrite gpp_block_nil. ss. fold canon_main_messages_body.
+      rewrite (set_msg_top _ _ _ _ c _ Hkc (nth_error_app_mid _ _ _)). unfold Fcur. rewrite gpp_list_set_set.
+      cbn [gpp_file_with_msgs fi_generate fi_proto3 fi_prefix fi_import fi_pkg fi_msgs]. rewrite gpp_list_set_app.
+      change {| fi_generate := fi_generate f0; fi_proto3 := fi_proto3 f0; fi_prefix := fi_prefix f0; fi_import := fi_import f0; fi_pkg := fi_pkg f0;
+                fi_msgs := done_ms ++ fst (gpp_rw_msg c d) :: rest |} with (gpp_file_with_msgs f0 (done_ms ++ fst (gpp_rw_msg c d) :: rest)).
+      replace (S (length done_ms)) with (length (done_ms ++ [fst (gpp_rw_msg c d)])) by (rewrite app_length; simpl; lia).
+      replace (done_ms ++ fst (gpp_rw_msg c d) :: rest) with ((done_ms ++ [fst (gpp_rw_msg c d)]) ++ rest) by (rewrite <- app_assoc; reflexivity).
+      rewrite (IH (done_ms ++ [fst (gpp_rw_msg c d)]) _ (snd (gpp_rw_msg c d)) (S j) Hdr).
+      + rewrite gpp_list_set_set. rewrite <- app_assoc. reflexivity.
+      + apply (gpp_heap_get_set_same _ _ d). exact Hq.
+      + rewrite gpp_heap_get_set_other by exact Hqr. exact Hr.
+  Qed.
+  (* the loop over plugin.Files *)
+  Lemma main_files_loop : forall rest done MM d j,
+    Forall (fun f => pm_forest_depth (fi_msgs f) <= fuel) rest -> gpp_heap_get MM q = Some d -> gpp_heap_get MM r = Some rm ->
+    gpp_loop (gpp_range_step perm sorter feat_gen call "_" "file" canon_main_files_body)
+            (gpp_index_items j (map GpvFile (seq (length done) (length rest))))
+            {| gpp_env := [[("processedMessages"%gname, GpvMap (Some q)); ("plugin"%gname, GpvPlugin)]; FR];
+               gpp_glob := G; gpp_maps := MM; gpp_files := done ++ rest; gpp_outs := O; gpp_params := P; gpp_err := E |}
+    = GpOk GsgNext
+        {| gpp_env := [[("processedMessages"%gname, GpvMap (Some q)); ("plugin"%gname, GpvPlugin)]; FR];
+           gpp_glob := G; gpp_maps := gpp_list_set q (snd (gpp_rw_files rest d)) MM; gpp_files := done ++ fst (gpp_rw_files rest d);
+           gpp_outs := O; gpp_params := P; gpp_err := E |}.
+  Proof.
+    induction rest as [|f rest IH]; intros done MM d j Hall Hq Hr.
+    - cbn [length seq map gpp_index_items gpp_rw_files fst snd]. unfold gpp_heap_get in Hq. rewrite (@gpp_list_set_id gpmap MM q d Hq). reflexivity.
+    - inversion Hall as [|? ? Hf Hrest]; subst.
+      simpl length. simpl seq. simpl map. simpl gpp_index_items. loop_head.
+      unfold gpp_range_step at 1. unfold gpp_scoped. unfold canon_main_files_body.
+      assert (Hk : nth_error (done ++ f :: rest) (length done) = Some f) by apply nth_error_app_mid.
+      cbn [gpp_rw_files]. destruct (fi_generate f) eqn:Eg.
+      + exec_head ltac:(rwx Hk Eg Eg Eg).
+        rewrite gpp_block_cons. rewrite gpp_exec_range. ss. rewrite Hk. ss.
+        pose proof (main_msgs_loop (length done) f (done ++ f :: rest) Hk (fi_msgs f) [] MM d 0 Hf Hq Hr) as HL.
+        cbn [length app] in HL. rewrite file_with_msgs_id in HL. rewrite (gpp_list_set_id _ _ _ Hk) in HL.
+        unfold gpframe, gpmap in *. rewrite HL. clear HL.
+        ss. rewrite gpp_list_set_app.
+        replace (S (length done)) with (length (done ++ [gpp_file_with_msgs f (fst (gpp_rw_forest (fi_msgs f) d))])) by (rewrite app_length; simpl; lia).
+        fold canon_main_files_body.
+        assert (Hq' : gpp_heap_get (gpp_list_set q (snd (gpp_rw_forest (fi_msgs f) d)) MM) q = Some (snd (gpp_rw_forest (fi_msgs f) d)))
+          by (apply (gpp_heap_get_set_same _ _ d); exact Hq).
+        assert (Hr' : gpp_heap_get (gpp_list_set q (snd (gpp_rw_forest (fi_msgs f) d)) MM) r = Some rm)
+          by (rewrite gpp_heap_get_set_other by exact Hqr; exact Hr).
+        pose proof (IH (done ++ [gpp_file_with_msgs f (fst (gpp_rw_forest (fi_msgs f) d))]) _ _ (S j) Hrest Hq' Hr') as HI.
+        rewrite <- !app_assoc in HI. cbn [app] in HI. unfold gpframe, gpmap in *. rewrite HI. rewrite gpp_list_set_set. reflexivity.
+      + exec_head ltac:(rwx Hk Eg Eg Eg).
+        ss. fold canon_main_files_body.
+        replace (S (length done)) with (length (done ++ [f])) by (rewrite app_length; simpl; lia).
+        replace (done ++ f :: rest) with ((done ++ [f]) ++ rest) by (rewrite <- app_assoc; reflexivity).
+        rewrite (IH _ _ d (S j) Hrest Hq Hr). rewrite <- app_assoc. reflexivity.
+  Qed.
+End MF.
+
+Lemma files_depth_forall : forall files fuel,
+  fold_right (fun f a => Nat.max (pm_forest_depth (fi_msgs f)) a) 0 files <= fuel ->
+  Forall (fun f => pm_forest_depth (fi_msgs f) <= fuel) files.
+Proof. induction files as [|f files IH]; intros fuel H; constructor; simpl in H; [lia | apply IH; lia]. Qed.
+
+Lemma main_prog : main_prog_stmt.
+Proof.
+  intros perm sorter feat_gen fuel reg files feats Hperm Hsort Hrok Hfuel. pose proof Hrok as [Hreg Hfg].
+  assert (Hregnd : NoDup (map fst reg)).
+  { apply Permutation_NoDup with (l := map fst registry); [apply Permutation_sym; exact Hreg | exact registry_nodup]. }
+  destruct fuel as [|[|[|f3]]]; try lia.
+  assert (Hdepth : Forall (fun f => pm_forest_depth (fi_msgs f) <= S (S f3)) files) by (apply files_depth_forall; lia).
+  unfold gpp_run_main. rewrite (boot_ok perm sorter feat_gen (S (S f3)) files _ reg Hregnd). cbn [gpp_bind].
+  rewrite gpp_call_S. remember (gpp_call perm sorter feat_gen canon_genprog (S (S f3))) as call eqn:Hcall.
+  unfold boot_state, boot_state'. ss. unfold canon_main_body.
+  exec_head ltac:(ss; reflexivity).
+  exec_head ltac:(ss; reflexivity).
+  exec_head ltac:(ss; reflexivity).
+  exec_head ltac:(ss; reflexivity).
+  exec_head ltac:(ss; reflexivity).
+  rewrite gpp_block_cons. rewrite gpp_exec_run. unfold gpp_scoped. unfold canon_main_closure.
+  set (featv := match feats with Some s => s | None => s_all end).
+  assert (Hrun : forall X : unit -> gpstate -> gpres gpsig, gpp_bind (gpp_run_params [(gname_bytes "pool", GpfValue); (gname_bytes "features", GpfString "features"%gname)]
+                     (match feats with Some s => [(s_features, s)] | None => [] end)
+                     {| gpp_env := [[("f"%gname, GpvFlags [(gname_bytes "pool", GpfValue); (gname_bytes "features", GpfString "features"%gname)]);
+                                     ("poolable"%gname, GpvMap (Some 2)); ("features"%gname, GpvStr (gname_bytes "all"))]];
+                        gpp_glob := boot_glob; gpp_maps := [reg; reserved_map; []]; gpp_files := files; gpp_outs := [];
+                        gpp_params := match feats with Some s => [(s_features, s)] | None => [] end; gpp_err := None |}) X
+                   = X tt {| gpp_env := [[("f"%gname, GpvFlags [(gname_bytes "pool", GpfValue); (gname_bytes "features", GpfString "features"%gname)]);
+                                     ("poolable"%gname, GpvMap (Some 2)); ("features"%gname, GpvStr featv)]];
+                        gpp_glob := boot_glob; gpp_maps := [reg; reserved_map; []]; gpp_files := files; gpp_outs := [];
+                        gpp_params := match feats with Some s => [(s_features, s)] | None => [] end; gpp_err := None |}).
+  { intro X. unfold featv. destruct feats as [s|]; reflexivity. }
+  ss. rewrite Hrun. clear Hrun.
+  exec_head ltac:(ss; reflexivity).
+  rewrite gpp_block_cons. rewrite gpp_exec_range. ss.
+  assert (HGr : gpp_glob_get "reservedFieldNames"%gname boot_glob = Some (GpvMap (Some 1))) by reflexivity.
+  assert (Hq3 : gpp_heap_get [reg; reserved_map; []; []] 3 = Some []) by reflexivity.
+  assert (Hr1 : gpp_heap_get [reg; reserved_map; []; []] 1 = Some reserved_map) by reflexivity.
+  assert (H31 : 3 <> 1) by lia.
+  rewrite Hcall.
+  pose proof (main_files_loop perm sorter feat_gen (S (S f3)) boot_glob
+               [("f"%gname, GpvFlags [(gname_bytes "pool", GpfValue); (gname_bytes "features", GpfString "features"%gname)]);
+                ("poolable"%gname, GpvMap (Some 2)); ("features"%gname, GpvStr featv)]
+               [] (match feats with Some s => [(s_features, s)] | None => [] end) None 3 1 reserved_map HGr reserved_map_keys H31
+               files [] [reg; reserved_map; []; []] [] 0 Hdepth Hq3 Hr1) as HL.
+  cbn [length app] in HL. simpl gname_bytes in HL. unfold gpframe, gpmap in *. rewrite HL. clear HL. rewrite <- Hcall.
+  ss.
+  (* return generateAllFiles(plugin, strings.Split(features, "+"), poolable) *)
+  match goal with |- context [gpp_block _ _ _ _ _ ?st] =>
+    destruct (generate_all_files_prog perm sorter feat_gen f3 st reg (split_plus featv) (Some 2) Hperm Hsort
+                (ex_intro _ 0 (conj eq_refl eq_refl)) Hrok) as [m Hm] end.
+  rewrite <- Hcall in Hm. cbn [gpp_files gpp_outs gpp_maps] in Hm.
+  unfold gpp_main_spec. fold featv.
+  destruct (find_features (split_plus featv)) as [fs|] eqn:Eff.
+  - exec_head ltac:(ss; change ["+"%byte] with [plus]; rewrite split_is_split_plus; rewrite Hm; ss; reflexivity).
+    ss. eexists. reflexivity.
+  - exec_head ltac:(ss; change ["+"%byte] with [plus]; rewrite split_is_split_plus; rewrite Hm; ss; reflexivity).
+    ss. eexists. reflexivity.
+Qed.
